@@ -129,6 +129,13 @@ pub(crate) fn compute(
     // degree in constant time instead of rescanning the coefficients, and
     // `degree() >= 7n` becomes `len() > 7n` (the empty polynomial passes
     // either way).
+    // Verification hook: play a prover that ignores the unsatisfied-circuit
+    // check and drops the remainder (see `crate::verif::set_force`).
+    #[cfg(all(feature = "verif", feature = "std"))]
+    if crate::verif::force_enabled() {
+        return crate::verif::forced_quotient(quotient_poly, quotient_domain);
+    }
+
     if quotient_poly.len() > 7 * (quotient_domain.size() / 8) {
         return Err(Error::CircuitUnsatisfied);
     }
